@@ -144,8 +144,22 @@ func (d *Demand) ProveAt(site *Site, gOf func(sn *Snap) *Formula) *Failure {
 	return nil
 }
 
+// demandBudget bounds the work of one demand (one rule at one site): a call cycle that re-writes the requirement at
+// every round (a payload parameter replaced by a fresh loop element each time) is not closed by the coinductive memo and
+// would otherwise be explored to the depth limit with the full fan-out; exhausting the budget is a failure of the
+// obligation ("cannot be decided"), never a pass.
+const demandBudget = 20000
+
+var maxDemandSteps int
+
 func (d *Demand) proveSnap(site *Site, sn *Snap, g *Formula, depth int) *Failure {
 	d.Steps++
+	if d.Steps > maxDemandSteps {
+		maxDemandSteps = d.Steps
+	}
+	if d.Steps > demandBudget {
+		return &Failure{Chain: []string{d.siteLabel(site)}, Reason: "demand budget exhausted (requirement keeps changing along a call cycle): cannot decide " + g.String()}
+	}
 	facts := sn.F
 	if d.UseSticky && len(sn.Sticky) > 0 {
 		facts = sn.F.clone()
